@@ -1183,3 +1183,29 @@ Proof.
   rewrite Hg in Hf. cbn [effect_of] in Hf. subst r'. cbn [s_found] in Hfound.
   destruct d; discriminate.
 Qed.
+
+(* ---- a completed upload that has a link row survives EVERY operation ---- *)
+Lemma linked_never_removed : forall h o f t,
+  let s := run h in
+  In (f, t) (links s) -> is_done f (files s) = true ->
+  In f (file_ids (step s o)) /\ In f (disk (step s o)).
+Proof.
+  intros h o f t s Hl Hd.
+  destruct (inv_run h) as [Hids [[_ Hdb] _]]. fold s in Hids, Hdb.
+  assert (Hlk : linked f (links s) = true) by (exact (linked_In f t (links s) Hl)).
+  unfold is_done in Hd. destruct (find_file f (files s)) as [g|] eqn:Eg; [|discriminate].
+  destruct (find_file_in _ _ _ Eg) as [Hg Hgid].
+  split.
+  - destruct (in_dec N.eq_dec f (file_ids (step s o))) as [H|H]; [exact H|]. exfalso.
+    rewrite <- Hgid in H.
+    destruct (record_removed_only_by s o g Hids Hg H) as [[older [limit [_ Hr]]]|[now [_ Hnd]]].
+    + destruct (gc_removed_sub s older limit g Hr) as [_ [Hn _]]. rewrite Hgid in Hn. congruence.
+    + congruence.
+  - assert (Hdisk : In f (disk s)) by (apply Hdb; unfold is_done; rewrite Eg; exact Hd).
+    destruct (in_dec N.eq_dec f (disk (step s o))) as [H|H]; [exact H|]. exfalso.
+    destruct (bytes_removed_only_by s o f Hdisk H) as [[older [limit [_ Hr]]]|[[now [_ Hnd]]|[_ Hnd]]].
+    + unfold gc_deleted_locations in Hr. apply in_map_iff in Hr. destruct Hr as [g' [Hid' Hr]].
+      destruct (gc_removed_sub s older limit g' Hr) as [_ [Hn _]]. rewrite Hid' in Hn. congruence.
+    + unfold is_done in Hnd. rewrite Eg in Hnd. congruence.
+    + unfold is_done in Hnd. rewrite Eg in Hnd. congruence.
+Qed.
